@@ -847,6 +847,21 @@ pub fn spaces(tier: Tier) -> Vec<Space> {
             eval_script(std::slice::from_ref(t), &e, ALL_LEGS, acc, case);
         }));
     }
+    // 1a'. every push payload length 1..=N (interior lengths), alone and inside a conditional branch
+    {
+        let e = env.clone();
+        let maxlen: u64 = if tier.is_thorough() { 4200 } else { 1100 };
+        let extra: Vec<u64> = vec![16383, 16384, 16385, 65535, 65536, 65537, 100000];
+        let total = maxlen + extra.len() as u64;
+        v.push(Space::new("push-length-sweep", total * 2, move |case, acc| {
+            let c = coords(case.idx, &[total, 2]);
+            let n = if c[0] < maxlen { c[0] + 1 } else { extra[(c[0] - maxlen) as usize] } as usize;
+            let data: Vec<u8> = (0..n).map(|i| (i * 5 + 0xa1) as u8).collect();
+            let push = rs::minimal_push(&data);
+            let toks: Vec<Tok> = if c[1] == 0 { vec![push] } else { vec![Tok::Op(0x51), Tok::Op(rs::OP_IF), push, Tok::Op(rs::OP_ELSE), Tok::Op(0x00), Tok::Op(rs::OP_ENDIF)] };
+            eval_script(&toks, &e, FEW_LEGS, acc, case);
+        }));
+    }
     // 1b. every ordered pair over the sub-alphabet
     {
         let e = env.clone();
